@@ -26,7 +26,7 @@ prop('C01',
      rule=('generated: struct shapes (1..7 fields per struct, value embedding to depth 4, pointer embedding, nested named structs, embedded non-struct named types, exported/unexported names colliding across depths, hseq tags with keys / empty keys / options / keys colliding with other field names) '
            'and for every focusable field (reached without crossing a pointer) a derivation by name and by type through ForProduct1/ForSpectrum1, plus N-ary derivations ForProductN/ForSpectrumN for drawn N in 2..9 by names in drawn order (same-typed fields preferred so a positional slip passes the type guard) and by types; '
            'each returned optic is exercised with drawn field contents and drawn values inside a canary-guarded arena whose EVERY leaf is filled: oracle = Get equals the bytes at the compiler-computed address; after Put the byte image of the arena (struct, padding, both canary zones, pointees) equals the old image with exactly the focus replaced by the new value; returned pointer identical; GetPut, PutGet, PutPut on images; same through Gett/Putt; '
-           ' Second tier (E2): struct shapes that exist only at run time (reflect.StructOf: 1..6 fields per struct, value/pointer embedding to depth 4, unexported names, tags) unfolded by the real unfold through the verif-tagged hook hseq.VerifUnfold and focused with optics.NewLens/NewReflector[Blob, A] for A over a static universe of 47 types; oracle: reflect\'s own addressing (FieldByIndex) for listing offsets and field memory, every OTHER focus type of the universe must be refused for the focused field, byte image of a canary-guarded arena for Put. non-trivial = shape with >= 3 listed entries and a focus that is not the first entry or lies inside an embedded struct; distinct = different (shape, request)'),
+           ' Second tier (E2): struct shapes that exist only at run time (reflect.StructOf: 1..6 fields per struct, value/pointer embedding to depth 4, unexported names, tags) unfolded by the real unfold through the verif-tagged hook hseq.VerifUnfold and focused with optics.NewLens/NewReflector[Blob, A] for A over a static universe of 47 types; oracle: reflect\'s own addressing (FieldByIndex) for listing offsets and field memory, every OTHER focus type of the universe must be refused for the focused field, byte image of a canary-guarded arena for Put. fixed cases add instantiations of a generic container (ut.Box[int8] / ut.Box[string] unfolded alternately, ut.Wrap[int64] embedding ut.Box[int64]; another instantiation requested as focus must be refused); non-trivial = shape with >= 3 listed entries and a focus that is not the first entry or lies inside an embedded struct; distinct = different (shape, request)'),
      assumptions=E1_ASSUME,
      parts=[
          dict(name='shapes', engine='E1', kind='gen', gen='lens', pkg='gen', test='TestShapes',
@@ -66,7 +66,7 @@ prop('C03',
      rule=('generated on the same shapes: hseq.New[T]() compared entry by entry with the flattened listing computed from the spec (declaration order, embedded struct by value or by pointer listed and followed by its fields depth-first): Name, Type, PureType, ID = position, key = tag or name, '
            'and for every entry not behind a pointer RootOffs+Offset = address difference computed by the compiler through plain selectors; ForName/ForNameMaybe/New(name) for every key, for absent keys, for the empty key and for field names hidden by a tag; ForType for every type present, for absent and near-miss types; '
            'New(names...) in reversed order with a repeat and with an unknown name; New1..New9 by N-tuples of types (cyclic, both orders) and FMap1..FMap9 with recording functions (the i-th function sees the i-th entry exactly once), FMap over the whole listing; '
-           ' Second tier (E2): struct shapes that exist only at run time (reflect.StructOf: 1..6 fields per struct, value/pointer embedding to depth 4, unexported names, tags) unfolded by the real unfold through the verif-tagged hook hseq.VerifUnfold and focused with optics.NewLens/NewReflector[Blob, A] for A over a static universe of 47 types; oracle: reflect\'s own addressing (FieldByIndex) for listing offsets and field memory, every OTHER focus type of the universe must be refused for the focused field, byte image of a canary-guarded arena for Put. the first result of hseq.New is reordered and overwritten by its owner and hseq.New is asked again (results are independent values); field types include twins whose reflect.Type.String() is equal although the types differ (ForType must tell them apart); struct types are reused inside a shape (embedded here, nested there) and a sixth of the shapes contain a diamond (one struct type pointer- or value-embedded in two branches); non-trivial = shape with >= 5 entries and at least one embedding; distinct = different shape'),
+           ' Second tier (E2): struct shapes that exist only at run time (reflect.StructOf: 1..6 fields per struct, value/pointer embedding to depth 4, unexported names, tags) unfolded by the real unfold through the verif-tagged hook hseq.VerifUnfold and focused with optics.NewLens/NewReflector[Blob, A] for A over a static universe of 47 types; oracle: reflect\'s own addressing (FieldByIndex) for listing offsets and field memory, every OTHER focus type of the universe must be refused for the focused field, byte image of a canary-guarded arena for Put. the first result of hseq.New is reordered and overwritten by its owner and hseq.New is asked again (results are independent values); field types include twins whose reflect.Type.String() is equal although the types differ (ForType must tell them apart); struct types are reused inside a shape (embedded here, nested there) and a sixth of the shapes contain a diamond (one struct type pointer- or value-embedded in two branches); fixed cases add instantiations of a generic container (ut.Box[int8] / ut.Box[string] unfolded alternately, ut.Wrap[int64] embedding ut.Box[int64]; another instantiation requested as focus must be refused); non-trivial = shape with >= 5 entries and at least one embedding; distinct = different shape'),
      assumptions=E1_ASSUME,
      parts=[
          dict(name='shapes', engine='E1', kind='gen', gen='lens', pkg='gen', test='TestShapes',
